@@ -7,7 +7,7 @@ from props._hist import History, Fail, result_fail, sig_from_rec, std_replay
 PROP = "C12"
 LEVEL = "other"
 SELFTEST_PARTS = ("num",)
-WALL_BUDGET = {"quick": 1200, "thorough": 9000}
+WALL_BUDGET = {"quick": 3600, "thorough": 14400}
 # (kind, src, dst) relative to the ACCOUNT root; R = this side's sync root, X = its prefix sibling (root + 'x')
 OPS = [
     ("create", "R/n", None), ("write", "R/a", None), ("delete", "R/a", None), ("mkdir", "R/m", None),
